@@ -31,5 +31,83 @@ theorem get_refines {key : α → κ} {P : Nat} {s : ASet α} (h : s.Inv key P) 
   rw [ASet.get_spec h (key x)]
   exact ⟨rfl, rfl⟩
 
+/-- Operations as the Rust API takes them: by element (lookups compare through `key`). -/
+inductive EOp (α : Type) where
+  | insert (x : α)
+  | take (x : α)
+  | get (x : α)
+  | contains (x : α)
+  | len
+
+/-- The model operation an element-indexed operation stands for. -/
+def EOp.toAS (key : α → κ) : EOp α → ASOp α κ
+  | .insert x => .insert x
+  | .take x => .take (key x)
+  | .get x => .get (key x)
+  | .contains x => .contains (key x)
+  | .len => .len
+
+/-- One operation of the translated source on a set, with its answer. -/
+def stepImg (key : α → κ) (P : Nat) (m : ASet α) : EOp α → Option (ASet α × ASOut α)
+  | .insert x => (insert key P m x).map fun r => (r.1, .bool r.2)
+  | .take x => (take key P m x).map fun r => (r.1, .val r.2)
+  | .get x => (get key P m x).map fun r => (m, .val r)
+  | .contains x => (contains key P m x).map fun r => (m, .bool r)
+  | .len => some (m, .nat (len key P m))
+
+def runImg (key : α → κ) (P : Nat) : ASet α → List (EOp α) → Option (ASet α × List (ASOut α))
+  | m, [] => some (m, [])
+  | m, op :: ops => (stepImg key P m op).bind fun r => (runImg key P r.1 ops).map fun q => (q.1, r.2 :: q.2)
+
+theorem step_refines {key : α → κ} {P : Nat} {s : ASet α} (h : s.Inv key P) (op : EOp α) :
+    ∃ s' o, s.opStep key P (op.toAS key) = .ok (s', o) ∧ s'.Inv key P ∧ stepImg key P s op = some (s', o) := by
+  obtain ⟨s', hstep, hinv, _, _⟩ := ASet.opStep_refines h (op.toAS key)
+  refine ⟨s', _, hstep, hinv, ?_⟩
+  have hle := h.len_le
+  cases op with
+  | insert x =>
+    simp only [EOp.toAS, ASet.opStep] at hstep ⊢
+    simp only [stepImg, insert_eq key P s hle]
+    cases hi : s.insert key P x with
+    | error e => rw [hi] at hstep; cases hstep
+    | ok pr => rw [hi] at hstep; simp only [Except.map, Except.ok.injEq] at hstep; exact congrArg some hstep
+  | take x =>
+    simp only [EOp.toAS, ASet.opStep] at hstep ⊢
+    simp only [stepImg, take_eq key P s hle]
+    cases hi : s.take key (key x) with
+    | error e => rw [hi] at hstep; cases hstep
+    | ok pr => rw [hi] at hstep; simp only [Except.map, Except.ok.injEq] at hstep; exact congrArg some hstep
+  | get x =>
+    simp only [EOp.toAS, ASet.opStep] at hstep ⊢
+    simp only [stepImg, get_eq key P s hle]
+    cases hi : s.get key (key x) with
+    | error e => rw [hi] at hstep; cases hstep
+    | ok pr => rw [hi] at hstep; simp only [Except.map, Except.ok.injEq] at hstep; exact congrArg some hstep
+  | contains x =>
+    simp only [EOp.toAS, ASet.opStep] at hstep ⊢
+    simp only [stepImg, contains_eq key P s hle]
+    cases hi : s.contains key (key x) with
+    | error e => rw [hi] at hstep; cases hstep
+    | ok pr => rw [hi] at hstep; simp only [Except.map, Except.ok.injEq] at hstep; exact congrArg some hstep
+  | len =>
+    simp only [EOp.toAS, ASet.opStep, Except.ok.injEq] at hstep ⊢
+    simp only [stepImg, len_eq key P s hle]
+    exact congrArg some hstep
+
+/-- **Whole histories**: over any history of element-indexed operations from a well-formed set (in particular from a
+    zero-filled buffer) the translated source answers, step by step, `some` of what the model answers — no failed
+    bounds check, no raw copy out of range, no loop that runs on — and ends in the model's final state. -/
+theorem run_refines {key : α → κ} {P : Nat} {s : ASet α} (h : s.Inv key P) (ops : List (EOp α)) :
+    ∃ s' outs, s.opRun key P (ops.map (EOp.toAS key)) = .ok (s', outs) ∧ s'.Inv key P ∧
+      runImg key P s ops = some (s', outs) := by
+  induction ops generalizing s with
+  | nil => exact ⟨s, [], rfl, h, rfl⟩
+  | cons op ops ih =>
+    obtain ⟨s1, o, hstep, hinv, himg⟩ := step_refines h op
+    obtain ⟨s', outs, hrun, hinv', himg'⟩ := ih hinv
+    refine ⟨s', o :: outs, ?_, hinv', ?_⟩
+    · simp only [List.map_cons, ASet.opRun, hstep, hrun]
+    · simp only [runImg, himg, Option.bind_some, himg', Option.map_some]
+
 end GenA
 end Stevia
